@@ -1,9 +1,9 @@
 SPECIFICATION Spec
-CONSTANTS MaxPre = 2 MaxN = 4
-  PreAlphabet <- AlphaSmall
-  Accs <- AccsSmall
-  Posts <- PostsSmall
-  FlowKinds = {"bare", "pairs", "ctx"}
+CONSTANTS MaxPre = 2 MaxN = 3
+  PreAlphabet <- AlphaVarsWide
+  Accs <- AccsVarsWide
+  Posts <- PostsVarsWide
+  FlowKinds = {"bare", "ctx"}
   Drivers = {"fill"}
   Places = {"alone"}
   StopFlag = "per_branch"
@@ -15,5 +15,6 @@ INVARIANT DriversAgree
 INVARIANT FillReaches
 INVARIANT StopSound
 INVARIANT ComputeOnce
+INVARIANT BufBound
 INVARIANT Emitted
 CHECK_DEADLOCK FALSE
